@@ -194,6 +194,32 @@ func hevcDeviations() []hdev {
 		}
 		v.TimingPresent, v.NumUnitsInTick, v.TimeScale, v.HRD = true, 1, 25, h
 	})
+	// sub-layers that alternate between several CPB specifications and low delay (cpb_cnt_minus1 not coded, inferred 0):
+	// a value must not leak from one sub-layer to the next
+	for _, lowFirst := range []bool{false, true} {
+		lowFirst := lowFirst
+		name := "hrd(nal+vcl, cpb_cnt 2 then low delay per sub-layer)"
+		if lowFirst {
+			name = "hrd(nal, low delay then cpb_cnt 2 per sub-layer)"
+		}
+		vui(name, func(v *h265syn.VUI, s *S) {
+			h := mkHRD(s, true, !lowFirst, false)
+			for i := range h.Sub {
+				low := (i%2 == 1) != lowFirst
+				sh := h265syn.SubHRD{ElementalDurationM1: 3}
+				if low {
+					sh.LowDelay = true // fixed_pic_rate flags 0, so the flag is coded
+				} else {
+					sh.FixedGeneral, sh.CpbCntM1 = true, 2
+				}
+				for k := uint(0); k <= sh.CpbCntM1; k++ {
+					sh.BitRate, sh.CpbSize, sh.CpbSizeDu, sh.BitRateDu, sh.Cbr = append(sh.BitRate, 500+k+uint(i)), append(sh.CpbSize, 900+k), append(sh.CpbSizeDu, 3+k), append(sh.BitRateDu, 4+k), append(sh.Cbr, k == 1)
+				}
+				h.Sub[i] = sh
+			}
+			v.TimingPresent, v.NumUnitsInTick, v.TimeScale, v.HRD = true, 1, 25, h
+		})
+	}
 	vui("bitstream_restriction", func(v *h265syn.VUI, _ *S) {
 		v.BitstreamRestriction, v.TilesFixed, v.MVOverPicBoundaries, v.RestrictedRefLists, v.MinSpatialSegIDC, v.MaxBytesPerPicDenom, v.MaxBitsPerMinCuDenom, v.Log2MaxMvH, v.Log2MaxMvV = true, true, true, true, 4095, 2, 1, 15, 14
 	})
